@@ -1010,6 +1010,7 @@ class SSHConnection(SSHPacketHandler, asyncio.Protocol):
         self._auth_final = False
         self._auth_methods = [b'none']
         self._auth_was_trivial = True
+        self._auth_request_pending = False
         self._username = ''
 
         self._channels: Dict[int, SSHChannel] = {}
@@ -2078,6 +2079,10 @@ class SSHConnection(SSHPacketHandler, asyncio.Protocol):
         """Send a user authentication packet"""
 
         self._auth_was_trivial &= trivial
+
+        if pkttype == MSG_USERAUTH_REQUEST:
+            self._auth_request_pending = True
+
         self.send_packet(pkttype, *args, handler=handler)
 
     async def send_userauth_request(self, method: bytes, *args: bytes,
@@ -2616,6 +2621,7 @@ class SSHConnection(SSHPacketHandler, asyncio.Protocol):
 
         if self.is_client() and self._auth:
             auth = cast(ClientAuth, self._auth)
+            self._auth_request_pending = False
 
             if partial_success: # pragma: no cover
                 # Partial success not implemented yet
@@ -2635,8 +2641,9 @@ class SSHConnection(SSHPacketHandler, asyncio.Protocol):
 
         packet.check_end()
 
-        if self.is_client() and self._auth:
+        if self.is_client() and self._auth and self._auth_request_pending:
             auth = cast(ClientAuth, self._auth)
+            self._auth_request_pending = False
 
             if self._auth_was_trivial and self._disable_trivial_auth:
                 raise PermissionDenied('Trivial auth disabled')
